@@ -84,7 +84,8 @@ def diff_tables(a_action, a_goto, a_prods, b_action, b_goto, b_prods, limit=4):
 
 def main(argv):
     pkg_root, cases_file, out_file = argv[:3]
-    unwritable = len(argv) > 3 and argv[3] == "unwritable"
+    unwritable = "unwritable" in argv[3:]
+    first_ctor = {"debug": True} if "first_debug" in argv[3:] else {}      # flags of the first parser object built in this process
     res = {"crashed": None, "events": [], "phase_events": {}}
     try:
         sys.path.insert(0, pkg_root)
@@ -179,8 +180,9 @@ def main(argv):
 
         with fs.Watch() as w:
             try:
-                p = DDLParser("CREATE TABLE t (a int);")
+                p = DDLParser("CREATE TABLE t (a int);", **first_ctor)
                 res["construct"] = "ok"
+                res["first_ctor"] = first_ctor
             except BaseException as e:
                 res["construct"] = "raised %s: %s" % (type(e).__name__, str(e)[:200])
                 p = None
